@@ -121,12 +121,10 @@ func (dm *DMap) deleteOnCluster(hkey uint64, key string, f *fragment) error {
 func (dm *DMap) deleteKey(key string) error {
 	hkey := partitions.HKey(dm.name, key)
 	part := dm.getPartitionByHKey(hkey, partitions.PRIMARY)
-	f, err := dm.loadOrCreateFragment(part)
+	f, err := dm.loadOrCreateLockedFragment(part)
 	if err != nil {
 		return err
 	}
-
-	f.Lock()
 	defer f.Unlock()
 
 	// Check the HKey before trying to delete it.
